@@ -258,11 +258,11 @@ def run_case(args):
         r2, state, ncmd = execute(vi, case, timeout=150, msan=msan, idle=60)
         if state == 'stuck':
             r3, state3, ncmd3 = execute(common.build('plain'), case, timeout=300, idle=120)
-            if state3 == 'stuck':
+            if state3 == 'stuck':      # ('starved' = the stream ended inside a text block: every :g/re/a execution reads one)
                 r3.err = (r3.err or b'') + b'[%d commands executed before the last one never returned]' % ncmd3
                 return ('hang', case, r3)
             return ('slow', case, r3)
-        if state == 'running':
+        if state in ('running', 'starved'):
             return ('slow', case, r2)
         r = r2
     rep = common.san_report(r)
@@ -312,7 +312,7 @@ def run(tier, V):
         if key == 'slow':
             slow += 1
             continue
-        wit = {'mode': case['mode'], 'rows': case['rows'], 'cols': case['cols'], 'args': case['args'], 'files': case['files'], 'stream': case['data'], 'seed_index': case['idx']}
+        wit = {'mode': case['mode'], 'rows': case['rows'], 'cols': case['cols'], 'args': case['args'], 'files': case['files'], 'stream': case['data'], 'seed_index': case['idx'], 'build': 'msan' if (key or '').startswith('msan') else 'asan'}
         if key == 'hang':
             V.violation('hang:' + stream_class(case), 'editor did not reach the quit at the end of the stream one command never returned (no command finished for 60 s in the sanitizer build and for 120 s in the plain build): mode %s stream %s' % (case['mode'], common.show(case['data'], 200)), wit)
         else:
@@ -337,7 +337,9 @@ def summarize(err):
 
 def REPLAY(w):
     import os
-    vi = build('asan')
+    msan = w.get('build') == 'msan'
+    vi = build('msan' if msan else 'asan')
+    build('plain')
     os.chmod(common.tmp_root(), 0o755)
-    r = run_case((vi, w['seed_index'], test_streams()))
+    r = run_case((vi, w['seed_index'], test_streams(), msan))
     return r[0], (summarize(r[2].err) if r[2] is not None else None)
